@@ -15,7 +15,9 @@ PLMN = {"ok": {"mcc": "208", "mnc": "93"}, "ok3": {"mcc": "208", "mnc": "093"}, 
         "multibyte": {"mcc": "\u20ac", "mnc": "93"},
         # parts of the wrong length whose concatenation has a legal length (5 or 6 digits)
         "mcc2mnc3": {"mcc": "20", "mnc": "893"}, "mcc4mnc1": {"mcc": "2089", "mnc": "3"}, "mcc5": {"mcc": "20893", "mnc": ""},
-        "mnc5": {"mcc": "", "mnc": "20893"}, "mcc4mnc2": {"mcc": "2089", "mnc": "30"}}
+        "mnc5": {"mcc": "", "mnc": "20893"}, "mcc4mnc2": {"mcc": "2089", "mnc": "30"},
+        # the subscriber's own network: the MCC is the first three digits of the (5-digit) IMSI of this case
+        "home2": {"mcc": "{P3}", "mnc": "93"}, "home3": {"mcc": "{P3}", "mnc": "093"}}
 PDU = {
     "full": {"chargingId": 7, "pduSessionInformation": {"pduSessionID": 1, "dnnId": "internet",
              "networkSlicingInfo": {"sNSSAI": {"sst": 1, "sd": "010203"}}}},
@@ -54,7 +56,13 @@ def to_case(hist, bid):
     s = h["shape"]
     supi = SUPI[s["supi"]]
     reqs = []
-    if s["prior"] in ("created", "debit", "nearfull"):
+    if s["prior"] == "evcreated":
+        # event based charging first (one-time event, answered at once), then a session of the same subscriber
+        eb = good_create(supi, s.get("notify", "present") == "present")
+        eb["oneTimeEvent"] = True
+        eb["oneTimeEventType"] = "IEC"
+        reqs.append(dict(role="prior", method="POST", path="/chargingdata", body=json.dumps(eb)))
+    if s["prior"] in ("created", "debit", "nearfull", "evcreated"):
         cb = good_create(supi, s.get("notify", "present") == "present")
         if s["prior"] == "nearfull":
             # the session's record is within a few octets of the 65 535-octet limit: the probed update rolls it over
@@ -89,7 +97,7 @@ def to_case(hist, bid):
               "_": "_", "u_1_2": supi.replace("/", "%2F") + "_1_2"}[s["rparam"]]
         reqs.append(dict(role="probe", method="PUT", path="/recharging/" + rp, body=""))
     # follow-up: a well-formed request for the same subscriber
-    if ep in ("update", "recharge") and s["prior"] in ("created", "debit", "nearfull"):
+    if ep in ("update", "recharge") and s["prior"] in ("created", "debit", "nearfull", "evcreated"):
         b = dict(subscriberIdentifier=supi, invocationSequenceNumber=9, multipleUnitUsage=usage("online_req"))
         reqs.append(dict(role="follow", method="POST", path="/chargingdata/{REF}/update", body=json.dumps(b)))
     reqs.append(dict(role="follow", method="POST", path="/chargingdata", body=json.dumps(good_create(supi))))
@@ -100,10 +108,10 @@ def cfg(tier):
     c = dict(
         Eps=S("create", "update", "release", "recharge"),
         Supis=S("imsi", "nodash", "imsiempty", "nai", "slash") if tier == "quick" else S("imsi", "nodash", "imsiempty", "nai", "slash", "long"),
-        Nfcis=S("present", "absent"), Plmns=S("absent", "ok", "ok3", "shortmcc", "shortmnc", "emptymnc", "multibyte", "mcc2mnc3", "mcc4mnc1", "mcc5", "mnc5", "mcc4mnc2"),
+        Nfcis=S("present", "absent"), Plmns=S("absent", "ok", "ok3", "shortmcc", "shortmnc", "emptymnc", "multibyte", "mcc2mnc3", "mcc4mnc1", "mcc5", "mnc5", "mcc4mnc2", "home2", "home3"),
         Pdus=S("absent", "full", "no_info", "no_slice", "no_snssai"),
         Usages=S("none", "online_req", "online_noreq", "offline"), Trigs=S("none", "partial", "final"),
-        Rparams=S("u_1", "u", "u_x", "_", "u_1_2"), Priors=S("fresh", "created", "debit", "nearfull"), Notifys=S("present", "absent"),
+        Rparams=S("u_1", "u", "u_x", "_", "u_1_2"), Priors=S("fresh", "created", "debit", "nearfull", "evcreated"), Notifys=S("present", "absent"),
         EmitOneIn=1)
     return c, 100000
 
